@@ -140,11 +140,13 @@ GhostStepForced(a, i, cfg) ==
       \* forced schedules (harness conc): one critical section of one thread per line
       [] r.op.op = "cstep" ->
             CASE r.op.step = "write" /\ r.op.p = "w" ->
-                    AWrite(a, {[k |-> r.op.arg.k, s |-> Rec[StIdx(i - 1)].st.seq, t |-> r.op.arg.t,
-                                v |-> r.op.arg.v]})
+                    AWrite(a, {[k |-> r.op.arg.k,
+                                s |-> IF "s" \in DOMAIN r.info THEN r.info.s ELSE Rec[StIdx(i - 1)].st.seq,
+                                t |-> r.op.arg.t, v |-> r.op.arg.v]})
               [] r.op.step = "rotate"   -> ARotate(a)
               [] r.op.step = "register" -> AFlush(a)
               [] r.op.step = "clear"    -> AClear(a, Rec[StIdx(i - 1)].st.seq)
+              [] r.op.step = "droprange" -> ADropRange(a, KeysT, Rec[StIdx(i - 1)].st.seq)
               [] OTHER -> a
       [] r.op.op = "clear"  -> AClear(a, r.info.s0)
       [] r.op.op = "droprange" ->
@@ -242,6 +244,25 @@ ObsGetOk(r, a) ==
     \A j \in 1..Len(r.obs.get) :
         LET S == r.obs.get[j].S L == LiveAt(a, S) IN
         \A k \in KeysT : DefinedL(a, L, k, S) => r.obs.get[j].v[k] = OracleL(L, k, S)
+
+\* Forced schedules: reads hit by the known finding C06-late-insert (KnownFindings.tla) are
+\* reported as KNOWN, everything else as usual.  lk(S) = the keys the signature marks at S.
+LateKeysAt(r, S) == IF WellFormed(r.st) THEN LateInsertKeys(StOf(r.st), S) ELSE {}
+ObsGetOkConc(r, a) ==
+    \A j \in 1..Len(r.obs.get) :
+        LET S == r.obs.get[j].S L == LiveAt(a, S) lk == LateKeysAt(r, S) IN
+        \A k \in KeysT \ lk : DefinedL(a, L, k, S) => r.obs.get[j].v[k] = OracleL(L, k, S)
+LateHit(r, a) ==
+    {<<k, r.obs.get[j].S>> : k \in KeysT, j \in 1..Len(r.obs.get)} \cap
+    {p \in KeysT \X {r.obs.get[j].S : j \in 1..Len(r.obs.get)} :
+        /\ p[1] \in LateKeysAt(r, p[2])
+        /\ \E j \in 1..Len(r.obs.get) :
+              r.obs.get[j].S = p[2] /\ Defined(a, p[1], p[2]) /\ r.obs.get[j].v[p[1]] # Oracle(a, p[1], p[2])}
+ObsScanOkConc(r, a) ==
+    \A j \in 1..Len(r.obs.scan) :
+        LET S == r.obs.scan[j].S L == LiveAt(a, S) lk == LateKeysAt(r, S)
+            flt(sq) == SelectSeq(sq, LAMBDA p : p[1] \notin lk) IN
+        flt(OnlyDefinedL(r.obs.scan[j].r, a, L, S)) = flt(OnlyDefinedL(ScanOf(L, S, FullBounds), a, L, S))
 
 ObsScanOk(r, a) ==
     \A j \in 1..Len(r.obs.scan) :
@@ -547,10 +568,15 @@ CheckLine(i, a, cfg, prev) ==
         /\ (ScanLineOk(r, a) \/ Say("VIOL", "SCANX", i, <<r.op, r.info, ScanExpected(r, a)>>))
     ELSE
     \* predicates over the observations only
-    /\ (ObsGetOk(r, a)          \/ Say("VIOL", "READ", i, r.obs.get))
-    /\ (KnownHit(r, a) = {}     \/ Say("KNOWN", "C13-weak-shadow", i, KnownHit(r, a)))
-    /\ (ObsScanOk(r, a)         \/ Say("VIOL", "SCAN", i, r.obs.scan))
-    /\ (ScanExtrasOk(r, a)      \/ Say("VIOL", "SCANX", i, r.obs.scan))
+    /\ IF cfg.conc THEN
+          /\ (ObsGetOkConc(r, a)  \/ Say("VIOL", "READ", i, r.obs.get))
+          /\ (LateHit(r, a) = {}  \/ Say("KNOWN", "C06-late-insert", i, LateHit(r, a)))
+          /\ (ObsScanOkConc(r, a) \/ Say("VIOL", "SCAN", i, r.obs.scan))
+       ELSE
+          /\ (ObsGetOk(r, a)          \/ Say("VIOL", "READ", i, r.obs.get))
+          /\ (KnownHit(r, a) = {}     \/ Say("KNOWN", "C13-weak-shadow", i, KnownHit(r, a)))
+          /\ (ObsScanOk(r, a)         \/ Say("VIOL", "SCAN", i, r.obs.scan))
+          /\ (ScanExtrasOk(r, a)      \/ Say("VIOL", "SCANX", i, r.obs.scan))
     \* predicates over the recorded state
     /\ IF ~WellFormed(r.st) THEN Say("VIOL", "MALFORMED", i, r.st.tbls)
        ELSE IF r.op.op = "cstep" THEN ConcChecks(i, r)
@@ -560,8 +586,9 @@ CheckLine(i, a, cfg, prev) ==
 \* fl: line (within the behaviour, reset = 1) at which an I/O fault was injected (C16), fb: the
 \* trace line of the behaviour's reset
 CfgOf(r, at) == [sep |-> [on |-> r.op.blob, big |-> Range(r.op.big)], rules |-> r.op.filter,
-                 fl |-> r.op.fault_line, fb |-> at, bcfg |-> r.op.bcfg]
-Init == l = 0 /\ A = AInit /\ C = [sep |-> NoSep, rules |-> <<>>, fl |-> 0, fb |-> 0, bcfg |-> [thr |-> 0, target |-> 0, stale |-> 0, cutoff |-> 0]] /\ P = AInit /\ F = [on |-> FALSE]
+                 fl |-> r.op.fault_line, fb |-> at, bcfg |-> r.op.bcfg,
+                 conc |-> "conc" \in DOMAIN r.op]
+Init == l = 0 /\ A = AInit /\ C = [sep |-> NoSep, rules |-> <<>>, fl |-> 0, fb |-> 0, bcfg |-> [thr |-> 0, target |-> 0, stale |-> 0, cutoff |-> 0], conc |-> FALSE] /\ P = AInit /\ F = [on |-> FALSE]
 
 Next ==
     /\ l < Len(Rec)
